@@ -114,6 +114,7 @@ def gen(rng, tier, idx):
         # the P2SH form is a property of the whole script: splicing operations into it changes what it is
         scn = workloads.session_scenario(rng, purpose="exec", allow_spend=False)
     scn["observe"] = rng.chance(50)      # observers quadruple the delivered lines; the other half relies on the probe alone
+    scn.pop("discard_stdout", None)      # this check reads what the tool prints
     if rng.chance(30) and len(scn["script"]) // 2 <= 3000 and not any(o.startswith("--pretend") for o in scn["opts"]):
         # the same script under the segwit v0 / tapscript rules: executed as the witness script / tap leaf of a
         # signature-free spend built by the harness (both for the session and for the spliced reference)
@@ -133,8 +134,10 @@ def gen_noise(rng):
     (what session A does, the plain equivalent session B does instead)"""
     a, b = [], []
     for _ in range(rng.range(1, 3)):
-        k = rng.below(9)
-        if k == 0:
+        k = rng.below(10)
+        if k == 9:
+            a.append(["sigint"])         # Ctrl-C at the prompt: ends the session, or - with a handler - must leave no trace
+        elif k == 0:
             a.append(["exec", "0102030405", "OP_1ADD"]); b.append(["exec", "0102030405", "OP_NOP"])  # throws after the push (the op is counted)
         elif k == 1:
             a.append(["exec", "5", "0102030405", "OP_ADD"]); b.append(["exec", "5", "0102030405", "OP_NOP"])
@@ -224,9 +227,13 @@ def evaluate_noise(ctx, scn):
         ev.hashes.append(r.hash())
         ev.counters["term:" + r.classify()[0]] += 1
         cmds = session.parse_session(w, r, items)
-        at = 1 + k + len(noise)           # index of the second sync
+        target = 1 + k + len(noise)       # item index of the second sync; Ctrl-C items produce no command entry
+        at = next((i for i, c in enumerate(cmds) if c.index == target), len(cmds))
         runs.append((items, cmds, at, r))
     (ia, ca, xa, ra), (ib, cb, xb, rb) = runs
+    if ra.classify()[0] == "interrupted":
+        ev.counters["noise_session_ended_by_ctrl_c"] += 1
+        return ev
     if ra.classify()[0] == "overflow" or rb.classify()[0] == "overflow":
         ev.counters["inconclusive_log_overflow"] += 1
         return ev
